@@ -5,6 +5,7 @@
 //!   <out>/fails.txt   oracle failures (one per line)
 //!   <out>/stats.json  counters, samples
 mod exec;
+mod exec_wk;
 #[macro_use]
 mod exec_cont;
 mod exec_conc;
@@ -125,6 +126,28 @@ fn edge_props(prop: &str, tier: &str, seed: u64, threads: usize, out: &str) {
         let n = 1 + rng.below(if quick { 6 } else { 8 });
         gen_edge::random_history(&mut rng, fl, &format!("r{i}"), n, nc, with_via)
     });
+    // the same histories with a key type whose Hash is coarser than its Eq (two hash values for all keys), non-Copy and
+    // heap-owning: whatever the library does with a key's hash or clone beyond what usize shows
+    exec::new_section();
+    let wfls: Vec<String> = fls.iter().map(|f| format!("w{f}")).collect();
+    let nw = if quick { 30 } else { 150 };
+    spread(&mut ctxs, nw * wfls.len(), |i| {
+        let mut rng = Rng::new(seed.wrapping_mul(1_000_033).wrapping_add(i as u64));
+        let fl = &wfls[i % wfls.len()];
+        let n = 2 + rng.below(if quick { 6 } else { 9 });
+        let mut l = gen_edge::random_history(&mut rng, &fl[1..], &format!("w{i}"), n, nc, false);
+        l[0] = format!("case {fl} w{i}");
+        l.retain(|x| !x.starts_with("sz ")); // the layout constants of sizeof are those of usize keys
+        // a few searches at the end (visited sets keyed by the same weak hash)
+        for _ in 0..6 {
+            let kind = ["bfs", "dfs", "pfs-min", "pfs-max"][rng.below(4)];
+            let mode = ["node", "path", "cycle"][rng.below(3)];
+            let tgt = if mode == "cycle" { "-".to_string() } else { rng.below(n).to_string() };
+            l.push(format!("search {kind} fwd {} {tgt} none {mode}", rng.below(n)));
+        }
+        l
+    });
+    extra.insert("weak_hash_keys".into(), format!("{} histories with colliding key hashes", nw * wfls.len()));
     write_outputs(out, &ctxs, extra);
 }
 
@@ -236,6 +259,34 @@ fn search_props(prop: &str, tier: &str, seed: u64, threads: usize, out: &str) {
         l
     });
     extra.insert("random.graphs".into(), format!("{ngraphs}"));
+    if ["C04", "C05", "C06", "C09"].contains(&prop) {
+        // the same searches over nodes whose key type has colliding hashes (visited sets, lookups by key)
+        exec::new_section();
+        let nw = if quick { 120 } else { 1500 };
+        let wfls: Vec<String> = flavours.iter().map(|f| format!("w{f}")).collect();
+        let p = prop.to_string();
+        spread(&mut ctxs, nw, |i| {
+            let mut rng = Rng::new(seed.wrapping_mul(7_000_033).wrapping_add(i as u64));
+            let fl = &wfls[i % wfls.len()];
+            let g = gen_search::random_graph(&mut rng, 8);
+            let mut l = vec![format!("case {fl} wk{i}")];
+            l.extend(gen_search::graph_lines(&g));
+            let kinds: Vec<&str> = match p.as_str() { "C04" => vec!["bfs"], "C05" => vec!["dfs"], "C06" => vec!["pfs-min", "pfs-max"], _ => vec!["bfs", "dfs", "pfs-min", "pfs-max"] };
+            for r in 0..g.n {
+                for k in &kinds {
+                    if p == "C09" {
+                        l.push(format!("search {k} fwd {r} - none cycle"));
+                    } else {
+                        for t in 0..g.n {
+                            l.push(format!("search {k} fwd {r} {t} none {}", if (r + t) % 2 == 0 { "path" } else { "node" }));
+                        }
+                    }
+                }
+            }
+            l
+        });
+        extra.insert("weak_hash_keys".into(), format!("{nw} graphs searched with colliding key hashes"));
+    }
     write_outputs(out, &ctxs, extra);
 }
 
